@@ -121,8 +121,8 @@ func probeMain(spec string) {
 		if o.Case.isPair() {
 			o.Case.ParamStr, o.Case.Workload = o.Case.ID, "pair"
 		}
-		l := fmt.Sprintf("%-22s %-34s %-28s %-9s %6.1fs k=%d d2h=%d B=%d %s %s", o.Case.Workload, o.Case.ParamStr, o.Case.Class, o.Verdict, o.Dur.Seconds(),
-			o.Trace["kernels_launched"], o.Trace["d2h_started"], o.Trace["d2h_bytes_dma"], o.Symptom, trimTo(strings.ReplaceAll(o.Detail, "\n", " "), 140))
+		l := fmt.Sprintf("%-22s %-34s %-28s %-9s %6.1fs k=%d d2h=%d B=%d wf=%d %s %s", o.Case.Workload, o.Case.ParamStr, o.Case.Class, o.Verdict, o.Dur.Seconds(),
+			o.Trace["kernels_launched"], o.Trace["d2h_started"], o.Trace["d2h_bytes_dma"], o.Trace["max_wavefronts_per_launch"], o.Symptom, trimTo(strings.ReplaceAll(o.Detail, "\n", " "), 140))
 		mu.Lock()
 		lines = append(lines, l)
 		mu.Unlock()
